@@ -1,17 +1,49 @@
-(* C01 -- property theorems; see DESIGN.md section 6.  Grows as proofs are completed. *)
-From PJ.Model Require Import Base Lookup Terms Encoder Api.
-From PJ.Proofs Require Import Mirror MirrorRun EncoderProofs.
+(* C01 -- the generic API round trip is lossless and order-preserving. *)
+From PJ.Model Require Import Base Lookup Terms Wire Encoder Streams Decoder Spec Api.
+From PJ.Proofs Require Import Mirror MirrorRun EncoderProofs DecoderProofs DecoderSound Den EncStream RoundTrip WireProofs.
 
-(* The split of an IRI into prefix and name loses nothing (what the reader concatenates is the IRI). *)
+(* Writer model then reader model: for EVERY statement sequence (all term kinds incl. nested quoted
+   triples, generalized positions, empty strings), every frame size and flow kind, every table
+   sizing the writer accepts (no fits premise: otherwise it raises), the frames the generic
+   TripleStream hands out are decoded by the generic parser to exactly the normalised input --
+   same length, same order, same duplicates. *)
+Theorem C01_round_trip_triples :
+  forall (o : soptions) (s s' : stream) (d : sdata) (evs : list tev) (delimited : bool),
+    stream_new TripleStream Generic o = Ok s -> cfg_ok o (st_logical s) ->
+    p_nd (so_params o) = false -> fl_rows (st_flow s) = [] ->
+    triples_stream_frames d s = (s', evs) -> raised evs = None ->
+    exists po ak st0 sk first more,
+      skip_empty (emitted evs) = (sk, first :: more) /\ options_from_frame first delimited = Ok po /\
+      route (po_phys po) = Ok ak /\ decoder_new po = Ok st0 /\
+      flat_obs (decode_frames Generic ak po (emitted evs) st0) = (flat_map event_of_triple (d_stmts d), None).
+Proof. exact triples_round_trip. Qed.
+Print Assumptions C01_round_trip_triples.
+
+Theorem C01_round_trip_quads :
+  forall (o : soptions) (s s' : stream) (d : sdata) (evs : list tev) (delimited : bool),
+    stream_new QuadStream Generic o = Ok s -> cfg_ok o (st_logical s) ->
+    p_nd (so_params o) = false -> fl_rows (st_flow s) = [] ->
+    quads_stream_frames d s = (s', evs) -> raised evs = None ->
+    exists po ak st0 sk first more,
+      skip_empty (emitted evs) = (sk, first :: more) /\ options_from_frame first delimited = Ok po /\
+      route (po_phys po) = Ok ak /\ decoder_new po = Ok st0 /\
+      flat_obs (decode_frames Generic ak po (emitted evs) st0) = (flat_map event_of_quad (d_stmts d), None).
+Proof. exact quads_round_trip. Qed.
+Print Assumptions C01_round_trip_quads.
+
+(* The byte layer for delimited output: frames whose wire form the parser reads back (the part tied
+   to protobuf by the correspondence check) are recovered exactly from write_delimited. *)
+Theorem C01_delimited_bytes_read_back :
+  forall fs : list frame, Forall readable fs -> read_frames (write_delimited fs) = (fs, FiEof).
+Proof. exact read_frames_delimited. Qed.
+Print Assumptions C01_delimited_bytes_read_back.
+
+(* xsd:string is the plain literal; empty tags / datatypes mean none *)
+Example norm_identifies_xsd_string :
+  norm (TLit [120] None (Some xsd_string)) = TLit [120] None None /\
+  norm (TLit [120] (Some []) None) = TLit [120] None None.
+Proof. split; reflexivity. Qed.
+
 Theorem C01_split_iri_lossless : forall iri : str, let '(p, n) := split_iri iri in p ++ n = iri.
 Proof. exact split_iri_app. Qed.
 Print Assumptions C01_split_iri_lossless.
-
-(* Every index the writer emits for a key resolves on the reader to that key, for every history
-   of hits, misses and evictions of each table (the lookup core of the round trip; see C05). *)
-Theorem C01_lookup_indices_resolve :
-  forall (rule : lk_rule) (size : N) (keys : list str),
-    1 <= size ->
-    Forall2 (fun k o => exists obs, o = Some obs /\ obs_ok size k obs) keys (api_lookup rule size keys).
-Proof. exact api_lookup_ok. Qed.
-Print Assumptions C01_lookup_indices_resolve.
